@@ -255,6 +255,25 @@ func ruleOwn(p *Prog, r *RuleResult) {
 				}
 			}
 		}
+		// only tasks write the shared counter: Writer/Reader methods never store into it (a parent that "finishes" or
+		// cancels the stream on its own makes later blocks disappear without an error)
+		for _, mf := range p.ModFns {
+			if p.Rel(mf) != "io" || mf.Signature.Recv() == nil || namedOf(mf.Signature.Recv().Type()) == nil || namedOf(mf.Signature.Recv().Type()).Obj().Name() != owner {
+				continue
+			}
+			eachInstr(mf, func(i ssa.Instruction) {
+				isW := false
+				if c := callOf(i); c != nil && isAtomic(c, "StoreInt32", "SwapInt32", "AddInt32", "CompareAndSwapInt32") && len(c.Args) > 0 && fieldVarOfAddr(c.Args[0]) == s.parentCounter {
+					isW = true
+				}
+				if sto, ok := i.(*ssa.Store); ok && fieldVarOfAddr(sto.Addr) == s.parentCounter {
+					isW = true
+				}
+				if isW {
+					r.fail(p.FnName(mf)+"#parent-writes-counter", p.IPos(i), "a method of the "+owner+" itself writes the shared block counter: only the block tasks may advance or cancel it; a parent that marks the stream finished/cancelled drops the remaining blocks without an error")
+				}
+			})
+		}
 		// parent: plain (non-atomic) accesses to the counter field only while no task is live
 		waits := map[ssa.Instruction]bool{}
 		eachInstr(pb, func(i ssa.Instruction) {
